@@ -31,7 +31,8 @@ worker() { # index
     expect=$(grep -m1 '^# expect:' "$p" | sed 's/^# expect: *//')
     git -C "$S" checkout -q -- . ; git -C "$S" clean -fdq
     if ! git -C "$S" apply "$(pwd)/$p" 2>/dev/null; then echo "SELFTEST-BROKEN $base: patch does not apply"; continue; fi
-    out=$("$T/govc" check --root "$R" --repo "$S" "$id" 2>&1); rc=$?
+    if [ "$kind" = mutant ]; then out=$(GOVC_SHORT_RETRY=1 "$T/govc" check --root "$R" --repo "$S" "$id" 2>&1); rc=$?
+    else out=$("$T/govc" check --root "$R" --repo "$S" "$id" 2>&1); rc=$?; fi
     if [ "$kind" = mutant ]; then
       if [ $rc -ne 1 ] || ! grep -q "^VIOLATION property=$id" <<<"$out"; then echo "SELFTEST-MISSED $base (rc=$rc)"; echo "$out" | tail -3
       elif [ -n "$expect" ] && ! grep -q "VIOLATION.*$expect" <<<"$out"; then echo "SELFTEST-WRONG-OBLIGATION $base: expected $expect"; echo "$out" | grep VIOLATION | head -3
